@@ -170,6 +170,31 @@ def _run_case(case: dict, judges: list[str], opts: dict):
         out["viol"].append({"judge": "tie", "what": f"driver rejected grammar: {ok}", "case": case, "sexp": sexp})
         return out
 
+    if "C02" in judges and "O" in modes and "O" not in b.err:
+        # translation validation: the optimizer's actual output must be accepted by the proved checker
+        # (coq/Opt.v ochk_grammar; soundness OptProof.ochk_sound)
+        pO = b.parsers["O"]
+        try:
+            roots = list(syms.exported) + (["SKIP"] if "SKIP" in pO.rules else [])
+            sexp_o, _ = export_parser(pO, roots=roots, syms=syms)
+            verdict = _drv.ask("O " + sexp_o)
+        except ExportError as e:
+            verdict = f"EXPORT {e}"
+        out["optcheck"] = {"valid": int(verdict == "VALID"), "invalid": int(verdict != "VALID"),
+                           "changed": int(verdict == "VALID" and sexp_o != sexp)}
+        if verdict != "VALID":
+            out["viol"].append({"judge": "tie", "what": "the optimizer's output is not accepted by the proved "
+                                f"translation validator (Opt.ochk_grammar): {verdict[:200]}", "case": case,
+                                "optimized": sexp_o if not verdict.startswith("EXPORT") else None, "original": sexp})
+        if _drv.ask("G " + sexp) != "OK" or _drv.ask("B " + " ".join(map(str, syms.inlined))) != "OK":
+            out["viol"].append({"judge": "tie", "what": "driver lost the grammar", "case": case})
+            return out
+
+    if "C07" in judges:
+        # termination certificate (SpecCert.wf_auto, extracted): inside the domain of C07_terminates_auto?
+        w = _drv.ask("W")
+        out["wf"] = {"certified": int(w == "WF"), "not_certified": int(w != "WF")}
+
     names_ok = {n for n, r in pI.rules.items() if not (r.modifier & SILENT)}
     import re as _re
     tags_ok = set(_re.findall(r"#([_a-zA-Z][_a-zA-Z0-9]*)\s*=", case["grammar"]))
@@ -395,6 +420,14 @@ def run_cases(cases: list[dict], judges: list[str], opts: dict | None = None, np
             agg["build_errors"] += 1
         for kk, vv in r["kinds"].items():
             agg["kinds"][kk] = agg["kinds"].get(kk, 0) + vv
+        if "wf" in r:
+            wf = agg.setdefault("wf", {"certified": 0, "not_certified": 0})
+            for kk in wf:
+                wf[kk] += r["wf"][kk]
+        if "optcheck" in r:
+            oc = agg.setdefault("optcheck", {"valid": 0, "invalid": 0, "changed": 0})
+            for kk in oc:
+                oc[kk] += r["optcheck"][kk]
         agg["viol"].extend(r["viol"])
         if len(agg["labels"]) < 5:
             agg["labels"].append(r["label"])
